@@ -291,6 +291,18 @@ static void clear_cb(void *obj, void *priv);
 static int d_clear_plain(struct cstl_dlist *D) { plain_count = 0; g_inlib = 1; cstl_dlist_clear(D, clear_cb); g_inlib = 0; return plain_count; }
 static int s_clear_plain(struct cstl_slist *S) { plain_count = 0; g_inlib = 1; cstl_slist_clear(S, clear_cb); g_inlib = 0; return plain_count; }
 
+/* the same for the other functions that take a callback: foreach, find, sort */
+static int pl_calls; static cstl_compare_func_t *pl_inner;
+static int pl_visit(void *e, void *p) { (void)e; (void)p; pl_calls++; return 0; }
+static int pl_cmp(const void *a, const void *b, void *p) { pl_calls++; return pl_inner(a, b, p); }
+static int d_foreach_plain(struct cstl_dlist *D, int rev) { pl_calls = 0; g_inlib = 1; (void)cstl_dlist_foreach(D, pl_visit, NULL, rev ? CSTL_DLIST_FOREACH_DIR_REV : CSTL_DLIST_FOREACH_DIR_FWD); g_inlib = 0; return pl_calls; }
+static int s_foreach_plain(struct cstl_slist *S) { pl_calls = 0; g_inlib = 1; (void)cstl_slist_foreach(S, pl_visit, NULL); g_inlib = 0; return pl_calls; }
+static int d_sort_plain(struct cstl_dlist *D, void *priv) { pl_calls = 0; g_inlib = 1; cstl_dlist_sort(D, pl_cmp, priv); g_inlib = 0; return pl_calls; }
+static int s_sort_plain(struct cstl_slist *S, void *priv) { pl_calls = 0; g_inlib = 1; cstl_slist_sort(S, pl_cmp, priv); g_inlib = 0; return pl_calls; }
+static int d_find_plain(struct cstl_dlist *D, const void *probe, void **ret) { pl_calls = 0; g_inlib = 1; *ret = cstl_dlist_find(D, probe, pl_cmp, NULL, CSTL_DLIST_FOREACH_DIR_FWD); g_inlib = 0; return pl_calls; }
+#define PLAIN_STEP(k) ((k) % 4 == 1)
+#define INVISIBLE(m, is_d, what, n, seen) VIOL(m, is_d, "callback_effects_invisible", "%s over %d elements: the caller's own counter, written by the callback and read right after the call in an optimised function, says %d", what, n, seen)
+
 static void clear_cb(void *obj, void *priv)
 {
     CB_ENTER();
@@ -814,6 +826,7 @@ static void l_exec(const plan_t *p)
             cstl_compare_func_t *cmp = mod ? cmp_key_mod : cmp_key;
             void *priv = mod ? (void *)(intptr_t)(mod + 1) : NULL;
             int n;
+            if (PLAIN_STEP(k)) { int seen; pl_inner = cmp; seen = d_sort_plain(D, priv); if (m->n >= 2 && seen < m->n - 1) INVISIBLE(m, 1, "sort", m->n, seen); PROBE("callback_counted_in_plain_function"); } else
             TRY(cstl_dlist_sort(D, cmp, priv)); check_noabort(m, 1);
             n = walk_d(D, tmp, m->n + 4, m->kind);
             if (n < 0) VIOL(m, 1, "sort_perm", "list does not terminate after sort");
@@ -881,6 +894,10 @@ static void l_exec(const plan_t *p)
             static struct lelem probe;
             int dir = (int)(o->a[2] & 1), want = -1;
             probe.key = key; probe.magic = MAGIC;
+            if (PLAIN_STEP(k)) {
+                int seen; void *r2 = NULL; pl_inner = cmp_key; seen = d_find_plain(D, HND(&probe), &r2);
+                if (m->n >= 1 && seen < 1) INVISIBLE(m, 1, "find", m->n, seen);
+            }
             if (o->a[2] & 2) {
                 static int barekey;
                 barekey = key; PROBE("d_find_by_bare_key");
@@ -900,6 +917,7 @@ static void l_exec(const plan_t *p)
         }
         case D_FOREACH: {
             int dir = (int)(o->a[2] & 1), r, expect_n, expect_r = 0, j;
+            if (PLAIN_STEP(k)) { int seen = d_foreach_plain(D, dir); if (seen != m->n) INVISIBLE(m, 1, "foreach", m->n, seen); }
             nvis = 0;
             vis_stop_at = (int)(o->a[3] % (uint64_t)(m->n + 2));   /* 0 = never */
             vis_stop_val = stopvals[(o->a[4] >> 8 ^ o->a[4]) % 12];
@@ -1022,6 +1040,7 @@ static void l_exec(const plan_t *p)
             cstl_compare_func_t *cmp = mod ? cmp_key_mod : cmp_key;
             void *priv = mod ? (void *)(intptr_t)(mod + 1) : NULL;
             int n;
+            if (PLAIN_STEP(k)) { int seen; pl_inner = cmp; seen = s_sort_plain(S, priv); if (m->n >= 2 && seen < m->n - 1) INVISIBLE(m, 0, "sort", m->n, seen); PROBE("callback_counted_in_plain_function"); } else
             TRY(cstl_slist_sort(S, cmp, priv)); check_noabort(m, 0);
             n = walk_s(S, tmp, m->n + 4, m->kind);
             if (n < 0) VIOL(m, 0, "sort_perm", "list does not terminate after sort");
@@ -1081,6 +1100,7 @@ static void l_exec(const plan_t *p)
         }
         case S_FOREACH: {
             int r, expect_n, expect_r = 0, j;
+            if (PLAIN_STEP(k)) { int seen = s_foreach_plain(S); if (seen != m->n) INVISIBLE(m, 0, "foreach", m->n, seen); }
             nvis = 0;
             vis_stop_at = (int)(o->a[3] % (uint64_t)(m->n + 2));
             vis_stop_val = stopvals[(o->a[4] >> 8 ^ o->a[4]) % 12];
